@@ -28,7 +28,7 @@ var (
 var c15Inspecting = []string{"generate", "generate-stdin", "generate-missing", "compare", "compare-all", "compare-all-github", "compare-github", "format-check", "format-check-all", "format-check-all-github",
 	"renumber-check", "renumber-check-all", "renumber-check-all-github", "version", "completion-bash", "completion-zsh", "completion-fish", "completion-powershell", "help", "regex-help", "copyright-noversion", "copyright-badversion", "update-badarg", "format-missing",
 	"format-check-missing-rule", "format-check-missing-chain", "format-check-missing-include", "renumber-decoy-orig", "renumber-decoy-txt", "renumber-decoy-readme", "renumber-check-decoy", "compare-missing", "update-missing-assembly"}
-var c15Rewriting = []string{"format", "format-include", "format-all", "update", "update-all", "renumber", "renumber-all", "copyright", "update-decoy-sorts-first", "update-all-decoy-sorts-first"}
+var c15Rewriting = []string{"format", "format-include", "format-include-cwd-elsewhere", "format-include-cwd-rules", "format-rule-cwd-elsewhere", "format-all", "update", "update-all", "renumber", "renumber-all", "copyright", "update-decoy-sorts-first", "update-all-decoy-sorts-first"}
 
 func c15Check(env *core.Env, cc core.Case) core.Verdict {
 	c := cc.(*c15Case)
@@ -62,6 +62,7 @@ func c15Check(env *core.Env, cc core.Case) core.Verdict {
 	var args []string
 	var stdin []byte
 	allowed := func(rel string) bool { return false }
+	cwd, dirArg := root, ""
 	switch c.Cmd {
 	case "generate":
 		inspecting, args = true, []string{"regex", "generate", t0.Key}
@@ -130,6 +131,24 @@ func c15Check(env *core.Env, cc core.Case) core.Verdict {
 	case "format-include":
 		args = []string{"regex", "format", "inc1"}
 		allowed = func(rel string) bool { return rel == "regex-assembly/include/inc1.ra" }
+	case "format-include-cwd-elsewhere", "format-include-cwd-rules", "format-rule-cwd-elsewhere":
+		// the working directory holds a file with the name of the target: the target is the one below the root given with -d
+		name, target := "inc1", "regex-assembly/include/inc1.ra"
+		if c.Cmd == "format-rule-cwd-elsewhere" {
+			name, target = t0.Key, "regex-assembly/"+t0.Key+".ra"
+		}
+		cwd = filepath.Join(sandbox, "elsewhere")
+		extra := sut.Tree{"../elsewhere/" + name + ".ra": "      copy in the working directory\n", "../elsewhere/" + name: "      no extension\n"}
+		if c.Cmd == "format-include-cwd-rules" {
+			cwd = filepath.Join(root, "rules")
+			extra = sut.Tree{"rules/" + name + ".ra": "      copy in the working directory\n"}
+			dirArg = ".."
+		}
+		if err := extra.Write(root); err != nil {
+			return core.Incon("cannot write decoy: %v", err)
+		}
+		args = []string{"regex", "format", name}
+		allowed = func(rel string) bool { return rel == target }
 	case "format-all":
 		args = []string{"regex", "format", "--all"}
 		allowed = func(rel string) bool { return reRaFile.MatchString(rel) }
@@ -186,8 +205,11 @@ func c15Check(env *core.Env, cc core.Case) core.Verdict {
 	}
 	before := sut.Snap(sandbox)
 	logf := filepath.Join(sandbox, "strace.log")
+	if dirArg != "" {
+		dir = dirArg
+	}
 	full := append([]string{"-d", dir}, args...)
-	r := sut.Run(sut.Cmd{Bin: env.Bin, Args: full, Stdin: stdin, Dir: root, Strace: logf})
+	r := sut.Run(sut.Cmd{Bin: env.Bin, Args: full, Stdin: stdin, Dir: cwd, Strace: logf})
 	evs, total, err := sut.ParseStrace(logf)
 	_ = removeFile(logf)
 	if err != nil || total == 0 {
@@ -255,7 +277,7 @@ func init() {
 	register(&core.Property{
 		ID:    "C15",
 		Level: "exploration",
-		Rule: "generated CRS trees (1..3 rules files, assembly files with includes/definitions/stored names, test files, setup example) with ~25 decoys (near-miss extensions and names such as 932100.ra.bak, 9321000.yaml, 920110 without extension, *.conf~, notes.example.txt, README files containing marker text, and a sibling directory outside the root with rules/assembly/test files) x 33 inspecting command lines (generate file/stdin/missing, compare single/--all/github, format --check single/--all/github, renumber-tests --check single/--all/github, version, completion for 4 shells, help, failing invocations, --check and single-target runs on missing targets and on decoys that only resemble a target) and 10 rewriting ones (format single/include/--all, update single/--all, the same with a backup copy of the rules file that matches the same glob and sorts in front of it, renumber-tests single/--all, update-copyright) x -d at the root or 1..2 levels below. Every run is traced with strace -f (file-related and attribute system calls). " +
+		Rule: "generated CRS trees (1..3 rules files, assembly files with includes/definitions/stored names, test files, setup example) with ~25 decoys (near-miss extensions and names such as 932100.ra.bak, 9321000.yaml, 920110 without extension, *.conf~, notes.example.txt, README files containing marker text, a sibling directory outside the root with rules/assembly/test files, and the same in the directory above the root, so that the root is nested in something that looks like another root) x 33 inspecting command lines (generate file/stdin/missing, compare single/--all/github, format --check single/--all/github, renumber-tests --check single/--all/github, version, completion for 4 shells, help, failing invocations, --check and single-target runs on missing targets and on decoys that only resemble a target) and 13 rewriting ones (format single/include/--all, format of an include file and of a rule file from a working directory that holds a file of the same name, update single/--all, the same with a backup copy of the rules file that matches the same glob and sorts in front of it, renumber-tests single/--all, update-copyright) x -d at the root or 1..2 levels below. Every run is traced with strace -f (file-related and attribute system calls). " +
 			"Oracle: inspecting commands perform no successful write-class system call (open for writing/creating, unlink, rename, mkdir, chmod, truncate, link ...; /dev/null excepted) and leave the sandbox snapshot (root plus outside sibling) identical; rewriting commands change only paths allowed by a path model written from the statement, perform no write-class call outside the root or on a pre-existing non-target. Non-trivial = every traced run; distinct by (tree, command, -d).",
 		Cases: func(env *core.Env, rng *rand.Rand) []core.Case {
 			trees := env.N(10, 80)
